@@ -59,7 +59,15 @@ def descr(rng, spelled, *, allow_list=True):
 class C05(Prop):
     id = "C05"
     lean_modules = ["PkgProofs.Props.C05"]
-    theorems = []          # filled in below
+    theorems = [
+        "C05.contains_is_all", "C05.contains_perm_invariant", "C05.empty_matches_all", "C05.ofString_empty",
+        "C05.clause_order_dup_invariant", "C05.matchAlike_of_same_spelling", "C05.matchAlike_arbitrary",
+        "C05.and_is_inter", "C05.and_override_table", "C05.and_error_iff", "C05.and_comm", "C05.and_comm_ext",
+        "C05.and_assoc", "C05.and_eq_parse_concat", "C05.eq_iff", "C05.eq_hash", "C05.eq_refl", "C05.eq_symm",
+        "C05.eq_trans", "C05.ofString_wf", "C05.and_wf", "C05.str_perm_invariant", "C05.str_parses_back",
+        "C05.str_does_not_parse_back_with_comma", "C05.str_depends_on_supply_order",
+        "SS.union_fromList", "SS.foldl_insert_foldl", "SS.contains_eq_admits", "SS.sortBy_perm_invariant",
+    ]
     rule = ("per sampled case: two multisets of 0-6 clauses around a common version (random order, spacing, duplicates, "
             "equal-but-differently-spelled members such as ==1.0/==1.0.0, a few ===<text> clauses), built from a string or "
             "from Specifier objects with their own overrides; all 27 combinations of override None/True/False on both "
